@@ -5705,8 +5705,10 @@ class CodegenCtx:
             # Check if we need to allocate
             # (a buffer with a default value is allocated in the start(), but delete may have freed it since)
             if ProgramData.do(ProgramFlag.ALLOCATE_STR_SPACE_DYNAMIC_ON_DEMAND) and (action.into_storage.default_value is None or ProgramData.do(ProgramFlag.DELETE_STRING_FREE_MEMORY)):
-                if is_start and action.into_storage.default_value is None:
+                if is_start and action.into_storage.default_value is None and not getattr(action.into_storage, "_allocated_in_start", False):
                     # if we're at the start, and there's no default value, and on demand is in effect, there's no possible way for state->c to have any value other than NULL
+                    # (unless an earlier start-up assignment has allocated it already)
+                    action.into_storage._allocated_in_start = True
                     result.add(f"state->c.{action.into_storage.name} = malloc({action.into_storage.str_size});")
                 else:
                     result.add(f"if (!state->c.{action.into_storage.name}) state->c.{action.into_storage.name} = malloc({action.into_storage.str_size});")
